@@ -159,7 +159,7 @@ class CallMixin:
                  or getattr(node, "name", None) in self.opaque_always):
             yield st, self.opaque_spec_call(st, node.name, args)
             return
-        if qual is not None and qual in self.contracts and qual not in self.no_contract_for:
+        if qual is not None and qual in self.contracts and qual not in self.no_contract_for and not self.spec_mode:
             yield from self.call_by_contract(st, f, qual, args, kwargs)
             return
         if qual is not None and qual in self.external_handlers:
